@@ -141,7 +141,7 @@ theorem inputs_get_none (name : Name) (prevs : List (Nat × List Fld)) (own : Op
       rw [← ht]
       exact mkDict_get?_none _ _ k hkk
   cases own with
-  | none => exact key _ _ (by simpa using hk1) h
+  | none => exact key _ _ (by simpa [ownKeyList] using hk1) h
   | some p =>
     obtain ⟨e, ks⟩ := p
     exact key _ _ (fun hm => by
